@@ -37,7 +37,9 @@ RULE = ("four corpora, user names drawn from a hostile near-miss pool (anon_1 _a
         "one hostile name with a closed-form trace, and chains of 10-45 simultaneously live let / except bindings in "
         "one unit with digit-suffixed user names chosen so that name+serial of one temporary reads like another's "
         "(total1 as no. 1 and total as no. 11), each variable logged at the end (closed form), and single lets that bind "
-        "one name 2-4 times (also through unpacking targets) with closures and reads between the bindings; (d) the let/comprehension/nonlocal/match sources of the C04 C06 "
+        "one name 2-4 times (also through unpacking targets) with closures and reads between the bindings, and try "
+        "forms nested 2-3 deep inside except handlers that bind the same (or a different) handler variable, the inner "
+        "handler firing or not, each outer handler reading its variable before and after the inner try; (d) the let/comprehension/nonlocal/match sources of the C04 C06 "
         "C07 C08 generators when importable (static oracle only). Non-trivial = the compiled AST contains >= 2 "
         "distinct _hy_ names; distinct by program text.")
 FLOOR = {"quick": 400, "thorough": 1000}
@@ -167,6 +169,11 @@ def cases(seed, tier, shard, nshards):
             tmpl, names, exp, variant = O.digit_program(rng)
             yield {"kind": "shadow", "tmpl": tmpl, "names": names, "exp": exp, "text": O.subst(tmpl, names),
                    "feats": ["digit-suffixed-names", "digits-" + variant], "watch": watch_names(rng, names[:3])}
+        elif r == 8 and i % 40 == 38:
+            tmpl, n, exp = O.nested_except_program(rng)
+            names = O.pick_names(rng, n, "hostile")
+            yield {"kind": "shadow", "tmpl": tmpl, "names": names, "exp": exp, "text": O.subst(tmpl, names),
+                   "feats": ["try-nested-in-except-handler"], "watch": watch_names(rng, names[:3])}
         elif r == 8 and i % 20 == 18 and i % 40 == 18:
             tmpl, n, exp = O.rebind_program(rng)
             names = O.pick_names(rng, n, "hostile")
